@@ -436,8 +436,7 @@ def FS.isFile (fs : FS) (p : P) : Bool := match fs.find? p with | some e => !e.i
 def validRmtree (fs : FS) (p : P) (order : List P) : Bool :=
     2 ≤ p.length && fs.isDir p && order.all (fun q => isUnder p q && fs.exists q) &&
     (fs.descendants p).all (fun e => order.contains e.path) && decide (order.Nodup) &&
-    (List.range order.length).all (fun i => (List.range order.length).all (fun j =>
-      !(isUnder (order.getD i []) (order.getD j [])) || j < i))
+    decide (order.Pairwise (fun a b => isUnder a b = false))      -- nothing is removed after something above it
 
 /-- would the real syscall succeed on this file system? (entries are addressed below `W` or `O`) -/
 def validOp (fs : FS) : Op → Bool
